@@ -37,8 +37,10 @@ type item struct {
 	Off  int64  `json:"off,omitempty"`
 	Mask byte   `json:"mask,omitempty"`
 	// Unpin: restore the latest state (no TXID target) instead of the pinned
-	// TXID. Only used for deletions of files that are not the newest of the
-	// chain: then "latest" still means the replica's max TXID.
+	// TXID. Used for deletions of files that are not the newest of the chain
+	// (then "latest" still means the replica's max TXID) and for truncations of
+	// any plan file (a file that is present but cut short, even to zero bytes,
+	// is visible: an older state is not a legitimate answer).
 	Unpin bool `json:"unpin,omitempty"`
 	// Thin: the replica holds only the files of the plan (what retention
 	// leaves once superseded files are gone), so no other level can stand in.
